@@ -1421,6 +1421,40 @@ pub fn run(tier: &str) -> Report {
         }
         rep.extra.insert("anm_at_path_cases".into(), json!(n));
     }
+    // ---- TH10+ ECL string tables (anim / ecli lists, sub names): names of every byte length class (ASCII, 1-4 full-width
+    //      characters, half-width kana, mixed), 0-3 entries per list; whatever compiles must read back with the same names
+    {
+        let mut n = 0u64;
+        let names = ["a.anm", "ab", "abc", "abcd", "敵.anm", "敵敵.anm", "敵敵敵.anm", "敵敵敵敵.anm", "ｱ.anm", "ｱｲ.anm", "a敵b.anm", "敵", "日本語のファイル.ecl", ""];
+        for game in ["th10", "th12", "th17"] {
+            let tool = Tool::new(Kind::Ecl, g(game));
+            let mut lists: Vec<(Vec<&str>, Vec<&str>)> = vec![];
+            for a in names { lists.push((vec![a], vec![])); lists.push((vec![], vec![a])); for b in ["x.anm", "敵.anm"] { lists.push((vec![a, b], vec![b])); lists.push((vec![b, a], vec![a, b, a])); } }
+            for (anim, ecli) in lists {
+                let q = |v: &Vec<&str>| v.iter().map(|s| format!("\"{s}\"")).collect::<Vec<_>>().join(", ");
+                let src = format!("meta {{\n    anim: [{}],\n    ecli: [{}],\n}}\nvoid main() {{\n    ins_10(@blob=\"\");\n}}\n", q(&anim), q(&ecli));
+                let out = drive::compile(tool, src.as_bytes(), &CompileOpts::default());
+                n += 1; rep.evaluations += 1; rep.traces_validated += 1;
+                let det = |what: String| json!({"family": "ecl10-string-tables", "class": format!("ecl-{game}"), "source": src, "what": what});
+                if let Some(p) = &out.panic { rep.fail(format!("C03:{}", p.signature()), det(p.text.clone())); continue; }
+                let Some(bytes) = out.bytes else { if !drive::has_error(&out.diag) { rep.fail(format!("C03:failed-without-error:ecl-{game}:string-tables"), det(out.diag.clone())); } rep.outcome(&format!("ecl10-strings:rejected-with-error:{}", out.diag.lines().next().unwrap_or("").chars().take(60).collect::<String>())); continue; };
+                let dec = drive::decompile(tool, &bytes, &DecompOpts::default());
+                rep.evaluations += 1;
+                match dec.text {
+                    None => { rep.outcome("ecl10-strings:UNREADABLE"); rep.fail(format!("C03:unreadable-output:ecl-{game}:string-tables"), det(format!("truth cannot read its own output: {}", head(&dec.diag, 3)))); },
+                    Some(text) => {
+                        let want_anim = format!("anim: [{}]", q(&anim)); let want_ecli = format!("ecli: [{}]", q(&ecli));
+                        let flat: String = text.split_whitespace().collect::<Vec<_>>().join(" ").replace("[ ", "[").replace(" ]", "]").replace(",]", "]").replace(", ]", "]");
+                        // (an empty list is not printed)
+                        if (anim.is_empty() || flat.contains(&want_anim)) && (ecli.is_empty() || flat.contains(&want_ecli)) && (!anim.is_empty() || !flat.contains("anim:")) && (!ecli.is_empty() || !flat.contains("ecli:")) { rep.outcome("ecl10-strings:ok"); }
+                        else { rep.outcome("ecl10-strings:CHANGED"); rep.fail(format!("C03:silent-change:ecl-{game}:string-tables"), det(format!("requested {want_anim} / {want_ecli}; read back: {}", flat.chars().take(300).collect::<String>()))); }
+                    },
+                }
+            }
+        }
+        rep.extra.insert("ecl10_string_table_cases".into(), json!(n));
+    }
+
 
     rep.extra.insert("witness_table".into(), json!(witness_table));
     rep.extra.insert("failure_counts".into(), json!(failure_counts));
